@@ -124,3 +124,8 @@ open Py
 @[pysimp] theorem Py.leV_nat (a b : Nat) : Py.leV (.int a) (.int b) = .ok (.bool (decide (a ≤ b))) := by
   simp [Py.leV, Py.asInt, bind, Except.bind, pure, Except.pure]
 end Adb
+
+namespace Adb
+open Py
+@[pysimp] theorem Py.add_bytes_bytes (a b : Bytes) : Py.add (.bytes a) (.bytes b) = .ok (.bytes (a ++ b)) := by simp [Py.add, pure, Except.pure]
+end Adb
